@@ -10,8 +10,16 @@ package otlptracehttp
 //
 //   clsh <gen> <resp> => <ok:<handled>|fatal|retry:<throttle ns>>
 //        one upload with retry disabled; the returned error goes through the package's `evaluate`
-//   uph <gen> <pkg>,gz<0|1> <enabled> <M 0|H|T> <cancel -|pre|at<j>|stop<j>> <resp> | <resp> …
-//        => <res> <attempts> s<0|1> h<n> g<bits|-> p<0|1|->
+//   uph <gen> <pkg>,gz<0|1>,t<d|p|z> <enabled> <M 0|H|T> <cancel -|pre|at<j>|stop<j>> <resp> | <resp> …
+//        => <res> <attempts> s<0|1> h<n> g<bits|-> p<0|1|-> S<-|nil|ctx|other|stuck>
+//     t: client timeout option — d none given (default 10 s), p WithTimeout(30 s), z WithTimeout(0) = none
+//        (http.Client.Timeout: per attempt, 0 = no limit)
+//     p: the upload returned within 2 s of the cancellation / Stop (0 = still pending then: the harness's watchdog
+//        released it through the caller's context); S: what Stop returned (stuck = not within 2 s)
+//   shuth <gen> <pkg>,t<d|p|z> <pend backoff|stall> => S<nil|ctx|other|stuck> E<nil|ctx|other|stuck> n<attempts>
+//     an export is pending (1 h retry back-off after 503, or a request the collector never answers), then
+//     Shutdown/Stop is called with a 100 ms deadline; S/E = what Shutdown and the pending export had returned at the
+//     final observation 2 s later (judged by outcome only); afterwards the caller's context is cancelled.
 //     M: MaxElapsedTime 0 (none) | H (1 h) | T (1 ns);  res: ok|fatal|retry|elapsed|would|cancel|ctx
 //     s: every attempt carried the same bytes and they are the expected (possibly gzipped) request message
 //     h: number of errors handed to otel.Handle; g: per wait, 1 iff the next request arrived no earlier than
@@ -58,15 +66,24 @@ type vRT struct {
 	arrive    []time.Time
 	answered  []time.Time
 	hook      func(i int)
+	stall     bool // the collector never answers: the attempt ends only with its context
 	exhausted bool
 }
 
 var vCurRT *vRT
+
+// vRTs: host -> *vRT for the scenarios that run concurrently (each uses its own endpoint host)
+var vRTs sync.Map
 var vRegOnce sync.Once
 
 type vDispatch struct{}
 
-func (vDispatch) RoundTrip(req *http.Request) (*http.Response, error) { return vCurRT.RoundTrip(req) }
+func (vDispatch) RoundTrip(req *http.Request) (*http.Response, error) {
+	if v, ok := vRTs.Load(req.URL.Host); ok {
+		return v.(*vRT).RoundTrip(req)
+	}
+	return vCurRT.RoundTrip(req)
+}
 
 func (rt *vRT) RoundTrip(req *http.Request) (*http.Response, error) {
 	now := time.Now()
@@ -83,6 +100,10 @@ func (rt *vRT) RoundTrip(req *http.Request) (*http.Response, error) {
 	rt.mu.Unlock()
 	if rt.hook != nil {
 		rt.hook(i)
+	}
+	if rt.stall {
+		<-req.Context().Done()
+		return nil, req.Context().Err()
 	}
 	defer func() {
 		rt.mu.Lock()
@@ -177,7 +198,7 @@ func vCls(out *vOut, gen, tok string) {
 	}
 	rt := &vRT{script: []vHTTPItem{it}}
 	vCurRT = rt
-	up := vNewUploader(false, RetryConfig{Enabled: false})
+	up := vNewUploader("", false, RetryConfig{Enabled: false}, "d")
 	vTakeHandled()
 	err := up.upload(context.Background())
 	h := vTakeHandled()
@@ -195,7 +216,7 @@ func vCls(out *vOut, gen, tok string) {
 	out.Line("clsh %s %s => %s", gen, tok, o)
 }
 
-func vUp(out *vOut, gen string, gz, enabled bool, msel, cancelMode string, toks []string) {
+func vUp(out *vOut, gen, to string, gz, enabled bool, msel, cancelMode string, toks []string) {
 	var script []vHTTPItem
 	for _, t := range toks {
 		it, ok := vParseResp(t)
@@ -221,7 +242,10 @@ func vUp(out *vOut, gen string, gz, enabled bool, msel, cancelMode string, toks 
 	}
 	rt := &vRT{script: script}
 	vCurRT = rt
-	up := vNewUploader(gz, rc)
+	up := vNewUploader("", gz, rc, to)
+	sig := make(chan struct{}) // closed when the cancellation / stop signal has been given
+	var sigOnce sync.Once
+	sres := "-"
 	ctx, cancel := context.WithCancel(context.Background())
 	defer cancel()
 	var cancelTime time.Time
@@ -234,6 +258,7 @@ func vUp(out *vOut, gen string, gz, enabled bool, msel, cancelMode string, toks 
 			if i == j {
 				cancelTime = time.Now()
 				cancel()
+				sigOnce.Do(func() { close(sig) })
 			}
 		}
 	case strings.HasPrefix(cancelMode, "stop"):
@@ -241,12 +266,35 @@ func vUp(out *vOut, gen string, gz, enabled bool, msel, cancelMode string, toks 
 		rt.hook = func(i int) {
 			if i == j {
 				cancelTime = time.Now()
-				up.stop()
+				serr := up.stop()
+				switch {
+				case time.Since(cancelTime) >= 2*time.Second:
+					sres = "stuck"
+				default:
+					sres = vErrClass(serr)
+				}
+				sigOnce.Do(func() { close(sig) })
 			}
 		}
 	}
 	vTakeHandled()
-	err := up.upload(ctx)
+	// the upload runs under a watchdog: if it is still pending 2 s after the cancellation / Stop it is released
+	// through the caller's context, so that a stuck export is an observation (p0), not a hung harness
+	done := make(chan error, 1)
+	go func() { done <- up.upload(ctx) }()
+	var err error
+	stuck := false
+	select {
+	case err = <-done:
+	case <-sig:
+		select {
+		case err = <-done:
+		case <-time.After(2 * time.Second):
+			stuck = true
+			cancel()
+			err = <-done
+		}
+	}
 	tAfter := time.Now()
 	h := vTakeHandled()
 	n := len(rt.bodies)
@@ -317,12 +365,91 @@ func vUp(out *vOut, gen string, gz, enabled bool, msel, cancelMode string, toks 
 	p := "-"
 	if !cancelTime.IsZero() {
 		p = "0"
-		if tAfter.Sub(cancelTime) < 2*time.Second {
+		if !stuck && tAfter.Sub(cancelTime) < 2*time.Second {
 			p = "1"
 		}
 	}
-	out.Line("uph %s %s,gz%d %d %s %s %s => %s %d s%d h%d g%s p%s", gen, vPkgTag, vB(gz), vB(enabled), msel, cancelMode,
-		strings.Join(toks, " | "), res, n, same, h, g, p)
+	out.Line("uph %s %s,gz%d,t%s %d %s %s %s => %s %d s%d h%d g%s p%s S%s", gen, vPkgTag, vB(gz), to, vB(enabled), msel, cancelMode,
+		strings.Join(toks, " | "), res, n, same, h, g, p, sres)
+}
+
+func vErrClass(err error) string {
+	switch {
+	case err == nil:
+		return "nil"
+	case errors.Is(err, context.Canceled) || errors.Is(err, context.DeadlineExceeded):
+		return "ctx"
+	}
+	return "other"
+}
+
+// vShut: an export is pending, then the exporter is shut down with a short deadline (see the header).
+func vShut(host, gen, to, pend string) string {
+	rc := RetryConfig{Enabled: true, InitialInterval: time.Hour, MaxInterval: time.Hour}
+	st, _ := vParseResp("503;-;0;e")
+	rt := &vRT{script: []vHTTPItem{st, st, st}, stall: pend == "stall"}
+	vRTs.Store(host, rt)
+	defer vRTs.Delete(host)
+	ex := vNewExporter(host, rc, to)
+	ctx, release := context.WithCancel(context.Background())
+	defer release()
+	expDone := make(chan error, 1)
+	go func() { expDone <- ex.export(ctx) }()
+	// wait until the first attempt has reached the collector (and, for back-off, has been answered)
+	for t0 := time.Now(); time.Since(t0) < 10*time.Second; time.Sleep(200 * time.Microsecond) {
+		rt.mu.Lock()
+		a, b := len(rt.arrive), len(rt.answered)
+		rt.mu.Unlock()
+		if a >= 1 && (pend == "stall" || b >= 1) {
+			break
+		}
+	}
+	time.Sleep(5 * time.Millisecond)
+	sctx, c2 := context.WithTimeout(context.Background(), 100*time.Millisecond)
+	defer c2()
+	shDone := make(chan error, 1)
+	go func() { shDone <- ex.shutdown(sctx) }()
+	sres, eres := "stuck", "stuck"
+	final := time.After(2 * time.Second)
+	shRet, exRet := false, false
+obs:
+	for !(shRet && exRet) {
+		select {
+		case e := <-shDone:
+			shRet, sres = true, vErrClass(e)
+		case e := <-expDone:
+			exRet, eres = true, vErrClass(e)
+		case <-final:
+			break obs
+		}
+	}
+	rt.mu.Lock()
+	n := len(rt.arrive)
+	rt.mu.Unlock()
+	// release whatever is still pending: the caller gives up
+	release()
+	for _, w := range []struct {
+		ret bool
+		ch  chan error
+	}{{shRet, shDone}, {exRet, expDone}} {
+		if !w.ret {
+			select {
+			case <-w.ch:
+			case <-time.After(20 * time.Second):
+				panic("verif: export/shutdown still blocked 20 s after the caller's context was cancelled")
+			}
+		}
+	}
+	return fmt.Sprintf("shuth %s %s,t%s %s => S%s E%s n%d", gen, vPkgTag, to, pend, sres, eres, n)
+}
+
+func vToOf(tok string) string {
+	for _, p := range strings.Split(tok, ",")[1:] {
+		if len(p) == 2 && p[0] == 't' {
+			return p[1:]
+		}
+	}
+	return "d"
 }
 
 func vAllDigits(s string) bool {
@@ -405,7 +532,9 @@ func TestVerifC14Client(t *testing.T) {
 						toks = append(toks, x)
 					}
 				}
-				vUp(out, f[1], strings.HasSuffix(f[2], "gz1"), f[3] == "1", f[4], f[5], toks)
+				vUp(out, f[1], vToOf(f[2]), strings.Contains(f[2], "gz1"), f[3] == "1", f[4], f[5], toks)
+			case f[0] == "shuth" && len(f) >= 4:
+				out.Line("%s", vShut("verif-replay.invalid:4318", f[1], vToOf(f[2]), f[3]))
 			}
 		}
 		return
@@ -487,9 +616,33 @@ func TestVerifC14Client(t *testing.T) {
 				toks[j] = strings.Join(p, ";")
 			}
 		}
-		vUp(out, gen, r.Intn(2) == 0, enabled, msel, cancelMode, toks)
+		vUp(out, gen, vPick(r, []string{"d", "d", "p", "z", "z"}), r.Intn(2) == 0, enabled, msel, cancelMode, toks)
 	}
 	// F19 end to end, always present: Retry-After: 1 then success
-	vUp(out, "f19", false, true, "H", "-", []string{"503;" + vHex("1") + ";0;e", "200;-;0;e"})
-	vUp(out, "f19", true, true, "0", "-", []string{"429;" + vHex("2") + ";0;e", "200;-;0;e"})
+	vUp(out, "f19", "d", false, true, "H", "-", []string{"503;" + vHex("1") + ";0;e", "200;-;0;e"})
+	vUp(out, "f19", "z", true, true, "0", "-", []string{"429;" + vHex("2") + ";0;e", "200;-;0;e"})
+	// every timeout configuration x {cancel, stop} in the first retry wait, always present
+	for _, to := range []string{"d", "p", "z"} {
+		vUp(out, "cancel", to, false, true, "0", "at0", []string{"503;-;0;e", "200;-;0;e"})
+		if vCanStop {
+			vUp(out, "stop", to, true, true, "0", "stop0", []string{"503;-;0;e", "200;-;0;e"})
+			vUp(out, "stop", to, false, true, "0", "stop1", []string{"429;-;0;e", "503;-;1;e", "200;-;0;e"})
+		}
+	}
+	// export pending -> Shutdown with a 100 ms deadline; the scenarios of one leg run concurrently
+	var wg sync.WaitGroup
+	lines := make([]string, 6)
+	for i, to := range []string{"d", "p", "z"} {
+		for j, pend := range []string{"backoff", "stall"} {
+			wg.Add(1)
+			go func() {
+				defer wg.Done()
+				lines[2*i+j] = vShut(fmt.Sprintf("verif-shut%d.invalid:4318", 2*i+j), "tab", to, pend)
+			}()
+		}
+	}
+	wg.Wait()
+	for _, l := range lines {
+		out.Line("%s", l)
+	}
 }
